@@ -80,7 +80,9 @@ def mk_file(rng, defs, allow_alias=True):
         elif r < 0.45:
             f[o] = rng.choice(VALUES)
         elif r < (0.8 if len(succ) > 1 else 0.6) and allow_alias:
-            f[o] = 'rule:' + rng.choice(succ)        # the old name kept as an alias of one (of possibly several) successors
+            # the old name kept as an alias of one (of possibly several) successors, in any spelling of that reference
+            al = 'rule:' + rng.choice(succ)
+            f[o] = rng.choice([al, al, [[al]], '(' + al + ')', ' ' + al, [al]])
     if rng.random() < 0.4:
         f['svc:unknown'] = rng.choice(VALUES)
     return f
@@ -187,7 +189,9 @@ def one_round(seed, root_a, root_b, wd):
         defs = [('admin_required', 'role:admin', None), ('svc:create', 'role:admin', ('svc:write', 'role:old')),
                 ('svc:delete', 'role:member', ('svc:write', 'role:old')),
                 ('svc:update', 'role:reader', ('svc:write', 'role:old'))]
-        forced_file = {'svc:write': 'rule:' + ['svc:create', 'svc:delete', 'svc:update'][(seed // 8) % 3]}
+        al = 'rule:' + ['svc:create', 'svc:delete', 'svc:update'][(seed // 8) % 3]
+        # ... in any spelling of that reference
+        forced_file = {'svc:write': [al, [[al]], '(' + al + ')', [al]][(seed // 24) % 4]}
     objs = build_defaults(defs)
     names_new = [d[0] for d in defs]
     # ---------------- upgrade
@@ -200,7 +204,7 @@ def one_round(seed, root_a, root_b, wd):
     open(src, 'w').write(json.dumps(f))
     fmt = rng.choice(['yaml', 'json'])
     conf = cfg.ConfigOpts()
-    shape = 'alias-to-new' if any(isinstance(v, str) and v.startswith('rule:svc:') for v in f.values()) else \
+    shape = 'alias-to-new' if any('rule:svc:' in str(v) for v in f.values()) else \
         ('split' if any(k == 'svc:write' for k in f) else 'plain')
     try:
         with mock.patch.object(generator, 'get_policies_dict', return_value={'ns': objs}), \
